@@ -10,7 +10,9 @@ RULE = ('composites of 0-4 (thorough 0-8) scripted processes: timestep constant 
         'updater), every emitted row, fronts after each call. Live stream: structural histories issued inside a running '
         'engine (non-forced run) while sensors with timesteps 1-3 add to a counter outside their compartment: the '
         'counter must equal the number of sensor updates that fell due while their process was registered (updates in '
-        'flight of deleted processes are dropped, every other one applied once). '
+        'flight of deleted processes are dropped, every other one applied once). Struct stream: structural histories '
+        '(as C09) whose updates also carry plain value updates of children: each must arrive (s.n grows by the given '
+        'amount), whatever structural keys accompany it. '
         'Non-trivial: >=2 invocations; distinct by term.')
 ASSUMPTIONS = [
     'timesteps and intervals are multiples of 1/16 s below 2^10 so that every float operation of run_for is exact',
@@ -31,8 +33,10 @@ def generate(seed, tier, enlarged=False):
         cases.append(sched.gen_case(rng, max_procs=4 if tier == 'quick' else 8, scripted=False))
     # updates in flight when their process is deleted: the live stream (structural histories inside a running
     # engine; sensors with timesteps 1-3 adding to a counter outside their compartment)
-    from harness import live
+    from harness import live, struct
     cases += [live.gen_case(rng) for _ in range(n // 6)]
+    # value updates carried by the same update as structural keys (never lost): structural histories as C09
+    cases += [{'kind': 'hist', 'hist': struct.gen_history(rng, rng.randint(3, 8))} for _ in range(n // 6)]
     return cases
 
 
@@ -46,13 +50,25 @@ def run(cases, tier='quick', seed=0):
         run_impl, render = staticmethod(live.run_impl), staticmethod(live.render)
         oracle = staticmethod(live.oracle_inflight)
         nontrivial, stat_key = staticmethod(live.nontrivial), staticmethod(live.stat_key)
+    from harness import struct
+
+    class Hist:
+        __name__ = 'harness.struct'
+        IMPORTS, CHECK_FN, BAD_TERM = struct.IMPORTS, struct.CHECK_FN, struct.BAD_TERM
+        run_impl, render = staticmethod(struct.run_impl), staticmethod(struct.render)
+        oracle = staticmethod(lambda c, ob, rng: struct.oracle_upd(c, ob))
+        nontrivial, stat_key = staticmethod(struct.nontrivial), staticmethod(struct.stat_key)
     return common.merge_streams(cases, [
         (lambda c: c['kind'] == 'sched', lambda cs: sched.run_family(me, cs, seed, PROPS)),
-        (lambda c: c['kind'] == 'live', lambda cs: common.generic_run(Live, cs, seed, shard=20))])
+        (lambda c: c['kind'] == 'live', lambda cs: common.generic_run(Live, cs, seed, shard=20)),
+        (lambda c: c['kind'] == 'hist', lambda cs: common.generic_run(Hist, cs, seed, shard=40))])
 
 
 def model_output(case, ob):
     if case['kind'] == 'live':
         from harness import live
         return common.coq_eval('LIVE', live.IMPORTS, 'model_out_all %s' % live.render(case, ob))[:4000]
+    if case['kind'] == 'hist':
+        from harness import struct
+        return struct.model_output(case, ob)
     return sched.model_output(case, ob)
